@@ -416,13 +416,36 @@ impl Prop for C16 {
             1 => 8,
             _ => 20,
         };
+        let mut text = gen_inline_case(rng, max_lines);
+        match rng.below(if tier == Tier::Quick { 16_000 } else { 60_000 }) {
+            0 => {
+                // one Replace op with more than 65536 words on each side
+                let (o, n) = crate::gen::gen_wordy_block(rng);
+                text.old = o.into_bytes();
+                text.new = n.into_bytes();
+            }
+            1..=160 => {
+                // a line with more than 32 separately changed words
+                let (o, n) = crate::gen::gen_zebra_block(rng);
+                text.old = o.into_bytes();
+                text.new = n.into_bytes();
+            }
+            _ => {}
+        }
+        let wordy = text.old.len() > 60_000;
         Case {
-            text: gen_inline_case(rng, max_lines),
+            text,
             cost_seed: rng.next(),
             cost_profile: rng.below(4) as u8,
             only_op: None,
             only_k: None,
-            cap: if tier == Tier::Quick { 128 } else { 512 },
+            cap: if wordy {
+                2
+            } else if tier == Tier::Quick {
+                128
+            } else {
+                512
+            },
             sample_seed: rng.next(),
         }
     }
